@@ -101,12 +101,12 @@ def evStr : Ev → Option String
   | .unlock r => some s!"U={r}"
   | .rd none => some "R:-"
   | .rd (some b) => some s!"R:{hexOf [b]}"
-  | .wr _ b acc => some s!"W:{hexOf [b]}:{if acc then 1 else 0}"
+  | .wr f b acc part => some s!"W:{hexOf [b]}:{if acc then 1 else 0}:{match f with | .cmd => "c" | .uns => "u"}{part}"
   | .handler f k c data z len aux ret =>
     let ks := match k with | .write => "w" | .read => "r" | .run => "x" | .test => "t"
     let fs := match f with | .cmd => "c" | .uns => "u"
     some s!"H:{ks}:{c}:{fs}:{hexOf data}:z{if z then 1 else 0}:{len}:{aux}={ret}"
-  | .varcb _ c i w size ret => some s!"V:{c}:{i}:{if w then "w" else "r"}:{size}={ret}"
+  | .varcb f c i w size ret => some s!"V:{c}:{i}:{if w then "w" else "r"}:{size}:{match f with | .cmd => "c" | .uns => "u"}={ret}"
   | .nestedTrig c t ret => some s!"N:t:{c}:{t}={ret}"
   | .nestedExit st ret => some s!"N:x:{st}={ret}"
   | _ => none
@@ -115,6 +115,8 @@ structure Run where
   w : World
   inq : List Nat := []
   opno : Nat := 0
+  hq : List HAnswer := []     -- persistent answer scripts (hq / vq records)
+  vq : List HAnswer := []
 
 def optNat (o : Option Nat) : Int := match o with | some n => n | none => -1
 
@@ -131,7 +133,8 @@ def traceLine (name : String) (before : World) (after : World) (ret : Int) : Str
   s!"{name} ret={ret} ev={evs} m={mem} q={busy},{hold},{full},{optNat s.cmd},{optNat s.ucmd} st={s.state.code},{s.ustate.code}"
 
 /-- distribute the ordered callback answers of a `svc` line over the two machines -/
-def mkSvcIn (w : World) (r wr : Bool) (inq : List Nat) (o : Opts) : SvcIn :=
+def mkSvcIn (w : World) (r wr : Bool) (inq : List Nat) (o0 : Opts) (hq vq : List HAnswer := []) : SvcIn :=
+  let o : Opts := { o0 with hs := if o0.hs.isEmpty then hq else o0.hs, vs := if o0.vs.isEmpty then vq else o0.vs }
   let s := w.s
   let unsH := s.ustate == .readLoop || s.ustate == .testLoop
   let unsV := s.ustate == .formatReadArgs &&
@@ -147,6 +150,22 @@ def mkSvcIn (w : World) (r wr : Bool) (inq : List Nat) (o : Opts) : SvcIn :=
 
 def consumed (s : St) : Bool := s.log.any fun e => match e with | .rd (some _) => true | _ => false
 
+def nHandler (s : St) : Nat := (s.log.filter fun e => match e with | .handler .. => true | _ => false).length
+def nVarcb (s : St) : Nat := (s.log.filter fun e => match e with | .varcb .. => true | _ => false).length
+
+/-- consume the persistent scripts according to the callbacks actually made -/
+def Run.afterSvc (r : Run) (w' : World) (o : Opts) : Run :=
+  { r with w := w', inq := if consumed w'.s then r.inq.drop 1 else r.inq,
+           hq := if o.hs.isEmpty then r.hq.drop (nHandler w'.s) else r.hq,
+           vq := if o.vs.isEmpty then r.vq.drop (nVarcb w'.s) else r.vq }
+
+def doSvc (r : Run) (name : String) (rd wr : Bool) (o : Opts) : Run × String :=
+  let i := mkSvcIn r.w rd wr r.inq o r.hq r.vq
+  let (w', ret) := apply r.w (.service i)
+  let fault := (if w'.s.oob && !r.w.s.oob then s!"\nFAULT oob at op {name}" else "") ++
+               (if w'.s.ub && !r.w.s.ub then s!"\nFAULT ub at op {name}" else "")
+  (r.afterSvc w' o, traceLine name r.w w' ret ++ fault)
+
 def doOp (r : Run) (name : String) (op : Op) : Run × String :=
   let (w', ret) := apply r.w op
   let inq := if consumed w'.s then r.inq.drop 1 else r.inq
@@ -154,14 +173,16 @@ def doOp (r : Run) (name : String) (op : Op) : Run × String :=
                (if w'.s.ub && !r.w.s.ub then s!"\nFAULT ub at op {name}" else "")
   ({ r with w := w', inq := inq }, traceLine name r.w w' ret ++ fault)
 
+def lastRet (line : String) : Int :=
+  match ((line.splitOn " ret=").getD 1 "").splitOn " " with
+  | x :: _ => toI x
+  | [] => 1
+
 partial def drain (r : Run) (opno : Nat) (k max : Nat) (rd wr : Bool) (o : Opts) (acc : Array String) : Run × Array String :=
   if k ≥ max then (r, acc)
   else
-    let i := mkSvcIn r.w rd wr r.inq o
-    let (w', ret) := apply r.w (.service i)
-    let inq := if consumed w'.s then r.inq.drop 1 else r.inq
-    let line := traceLine s!"{opno}.{k}" r.w w' ret
-    let r := { r with w := w', inq := inq }
+    let (r, line) := doSvc r s!"{opno}.{k}" rd wr o
+    let ret := r.w.s.log.length * 0 + (lastRet line)
     if ret == 0 then (r, acc.push line) else drain r opno (k + 1) max rd wr o (acc.push line)
 
 structure Ctx where
@@ -206,6 +227,10 @@ def step (c : Ctx) (line : String) : Ctx × Array String :=
     | some r =>
       if op == "in" then
         ({ c with run := some { r with inq := r.inq ++ unhex (args.getD 0 "") } }, #[])
+      else if op == "hq" then
+        ({ c with run := some { r with hq := r.hq ++ ((args.getD 0 "").splitOn ",").map parseAns } }, #[])
+      else if op == "vq" then
+        ({ c with run := some { r with vq := r.vq ++ ((args.getD 0 "").splitOn ",").map parseAns } }, #[])
       else
         let r := { r with opno := r.opno + 1 }
         let name := toString r.opno
@@ -213,7 +238,7 @@ def step (c : Ctx) (line : String) : Ctx × Array String :=
         match op, args with
         | "svc", rd :: wr :: rest =>
           let o := parseOpts rest
-          fin (doOp r name (.service (mkSvcIn r.w (rd == "1") (wr == "1") r.inq o)))
+          fin (doSvc r name (rd == "1") (wr == "1") o)
         | "drain", mx :: rd :: wr :: rest =>
           let o := parseOpts rest
           let (r, lines) := drain r r.opno 0 (toN mx) (rd == "1") (wr == "1") o #[]
